@@ -122,7 +122,33 @@ def _bind_content(slot, ex, tag):
     return vs
 
 
-def items_with(prog, ex, sym_ids, content_ids, full_first=()):
+def distinct_names(ex, varlists):
+    """consistent renaming keeps distinct identifiers distinct"""
+    import z3
+    vls = [v for v in varlists if any(not isinstance(x, str) for x in v)]
+    for i in range(len(vls)):
+        for j in range(i + 1, len(vls)):
+            a, b = vls[i], vls[j]
+            if len(a) != len(b):
+                continue
+            diffs = []
+            same_possible = True
+            for x, y in zip(a, b):
+                if isinstance(x, str) and isinstance(y, str):
+                    if x != y:
+                        same_possible = False
+                        break
+                elif isinstance(x, str):
+                    diffs.append(y.z != ord(x))
+                elif isinstance(y, str):
+                    diffs.append(x.z != ord(y))
+                else:
+                    diffs.append(x.z != y.z)
+            if same_possible and diffs:
+                ex.solver.add(z3.Or(diffs))
+
+
+def items_with(prog, ex, sym_ids, content_ids, full_first=(), distinct=False):
     bound = {}
     out = []
     for l in prog.lines:
@@ -143,9 +169,49 @@ def items_with(prog, ex, sym_ids, content_ids, full_first=()):
     return out
 
 
+C17_MICRO = [
+    # (file name, body template); {S} string slot, {C} char slot, {K} comment text slot
+    ("a1.c", "int\tfn(int a)\n{\n\tint\t\tcnt[{C} - {C} + 1];\n\tchar\tbuf[{C}];\n\n\tcnt[0] = a;\n\tbuf[0] = {C};\n\treturn (cnt[0]);\n}\n"),
+    ("a2.c", "static int\tg_tab[{C}];\n\nint\tfn(void)\n{\n\treturn (g_tab[0] == {C});\n}\n"),
+    ("a3.h", "#ifndef A3_H\n# define A3_H\n\n# define MSG {S}\n# define CH {C}\n\ntypedef struct s_rec\n{\n\tchar\tname[{C} - {C} + 1];\n\tint\t\tid;\n}\tt_rec;\n\nint\tfn(char *s); /* {K} */\n\n#endif\n"),
+    ("a4.c", "int\tfn(char *s)\n{\n\tif (cmp(s, {S}) == 0 && s[0] != {C})\n\t\treturn (len({S}));\n\twhile (s[0] == {C})\n\t\ts++;\n\tput({S}, {C}, s);\n\treturn (0);\n}\n"),
+    ("a5.c", "/* {K} */\n#include <unistd.h> // {K}\n\n// {K}\nstatic char\t*g_s = {S}; /* {K} */\n\n/*\n** {K}\n*/\nint\tfn(void)\n{\n\treturn (g_s[0] == {C});\n}\n// {K}\n"),
+    ("a6.c", "int\tfn(char c)\n{\n\tchar\t*p;\n\n\tp = (char *){S};\n\tp = {S} + 1;\n\tc = {C} + 1;\n\tc = (char){C};\n\tc = -{C};\n\tfoo({S}, {S});\n\treturn (c == {C} || p[0] == {C});\n}\n"),
+]
+
+
+def c17_micro(idx):
+    import re
+    name, tmpl = C17_MICRO[idx]
+    lines = F.header_lines(name) + [F.Line([""], "blank")]
+    k = 0
+    for raw in tmpl.split("\n")[:-1]:
+        parts = []
+        for tok in re.split(r"(\{[SCK]\})", raw):
+            if tok == "{S}":
+                k += 1
+                parts.append(F.Slot("str", '"' + "abcd"[: 1 + k % 4] + '"'))
+            elif tok == "{C}":
+                parts.append(F.Slot("chr", "'a'"))
+            elif tok == "{K}":
+                k += 1
+                parts.append(F.Slot("comment", "note"[: 1 + k % 4]))
+            elif tok:
+                parts.append(tok)
+        lines.append(F.Line(parts or [""], "raw"))
+    return F.Prog(name, lines)
+
+
 # ---------------------------------------------------------------------------------------------- chunks
 def chunks(prop, tier, n):
     out = []
+    if prop == "C18":
+        for m in range(len(F.micro_programs())):
+            out.append(dict(prop=prop, micro=m, seed=m, kind="c", rot=0))
+    if prop == "C17":
+        for m in range(len(C17_MICRO)):
+            for rot in range(3):
+                out.append(dict(prop=prop, micro=m, rot=rot, seed=m, kind="c"))
     for i in range(n):
         kind = "h" if i % 4 == 3 else "c"
         if prop == "C19":
@@ -154,7 +220,7 @@ def chunks(prop, tier, n):
                     continue
                 out.append(dict(prop=prop, seed=i, kind=kind, mode=mode, sub=len(out)))
         elif prop == "C17":
-            out.append(dict(prop=prop, seed=i, kind=kind, inside=(i % 3 == 2)))
+            out.append(dict(prop=prop, seed=i, kind=kind, inside=(i % 3 == 2), rot=i // 4))
         else:
             out.append(dict(prop=prop, seed=i, kind=kind, rot=i % 3))
     return out
@@ -182,7 +248,38 @@ def run_chunk(chunk, ctx):
     prog = F.program(chunk["seed"], ctx["tier"], chunk["kind"])
     cur = {}
     if prop in ("C18", "C17"):
-        if prop == "C18":
+        if prop == "C18" and "micro" in chunk:
+            prog = F.micro_programs()[chunk["micro"]]
+            slots = prog.slots()
+            ids = {s.id for s in slots if s.kind in IDKINDS}
+            opslots = [s for s in slots if s.kind in ("binop1", "binop2", "unop1", "incdec", "assign2")]
+            OPSETS = {"binop1": ["+", "*", "&", "-", "<", "/"], "binop2": ["==", "&&", "<<"], "unop1": ["-", "!", "*", "&"],
+                      "incdec": ["++", "--"], "assign2": ["+=", "*="]}
+            bound_ids = {}
+
+            def micro_items(choice):
+                out = []
+                for l in prog.lines:
+                    for q in l.parts:
+                        if isinstance(q, str):
+                            out += list(q)
+                        elif q.id in ids:
+                            if q.id not in bound_ids:
+                                n0 = len(ex.solver.assertions())
+                                vs = q.bind(ex, "", narrow_first=False)
+                                bound_ids[q.id] = (vs, list(ex.solver.assertions())[n0:])
+                            else:
+                                ex.solver.add(*bound_ids[q.id][1])
+                            out += bound_ids[q.id][0]
+                        elif q.id in choice:
+                            out += list(choice[q.id])
+                        else:
+                            out += list(q.default)
+                    out.append("\n")
+                distinct_names(ex, [v[0] for v in bound_ids.values()])
+                return out
+            items = None
+        elif prop == "C18":
             slots = prog.slots()
             ids = {s.id for s in slots if s.kind in IDKINDS or s.kind.startswith("pid:")}
             group = [s for s in slots if s.kind in IDKINDS]
@@ -190,13 +287,16 @@ def run_chunk(chunk, ctx):
             if group:
                 st = (chunk["rot"] * 2) % len(group)
                 full = {group[(st + k) % len(group)].id for k in range(min(2, len(group)))}
-            items = items_with(prog, ex, ids, set(), full)
+            items = items_with(prog, ex, ids, set(), full, distinct=True)
         else:
-            prog = with_comments(prog, chunk["seed"], inside=chunk.get("inside", False))
-            cids = []
-            for s in prog.slots():
-                if s.kind in ("comment", "str", "chr") and len(cids) < ctx.get("max_slots", 3):
-                    cids.append(s.id)
+            if "micro" in chunk:
+                prog = c17_micro(chunk["micro"])
+            else:
+                prog = with_comments(prog, chunk["seed"], inside=chunk.get("inside", False))
+            cand = [s for s in prog.slots() if s.kind in ("comment", "str", "chr")]
+            k = ctx.get("max_slots", 3)
+            rot = chunk.get("rot", 0)
+            cids = [cand[(rot * k + j) % len(cand)].id for j in range(min(k, len(cand)))] if cand else []
             if not cids:
                 return dict(stats=dict(paths=0), validated=0, confirmed=[], unconfirmed=[], n_mismatch=0, mismatches=[],
                             samples=[], gaps={}, counters={"skipped_no_content_slot": 1}, notes={})
@@ -205,29 +305,38 @@ def run_chunk(chunk, ctx):
 
         def body():
             cur.clear()
-            o = P.run_text(prog.name, SymStr(items))
+            its = items
+            rk = "ref"
+            if its is None:
+                choice = {}
+                for sl in opslots:
+                    opts = OPSETS[sl.kind]
+                    choice[sl.id] = opts[core.choose(f"op{sl.id}", len(opts))]
+                its = micro_items(choice)
+                rk = tuple(sorted(choice.items()))
+            cur["items"] = its
+            o = P.run_text(prog.name, SymStr(its))
             key = outcome_key(o)
             ckey = conc(key)
-            if "key" not in ref:
-                ref["key"] = ckey
-                ref["text"] = SymStr(items).concretize(ex.model())
-            elif ckey != ref["key"]:
+            if rk not in ref:
+                ref[rk] = (ckey, SymStr(its).concretize(ex.model()))
+            elif ckey != ref[rk][0]:
                 m = ex.model()
-                text = SymStr(items).concretize(m)
-                col.violation(diff_fp(prop, ref["key"], ckey),
+                text = SymStr(its).concretize(m)
+                col.violation(diff_fp(prop, ref[rk][0], ckey),
                               f"{'renaming identifiers' if prop == 'C18' else 'replacing comment/literal text'} changes the diagnostics",
-                              dict(prop=prop, name=prog.name, a=ref["text"], b=text))
+                              dict(prop=prop, name=prog.name, a=ref[rk][1], b=text))
                 cur["viol"] = True
-            return dict(key=ckey)
+            return dict(key=ckey, rk=rk)
 
         def on_path(res, status):
             if status == "gap":
                 col.gap(str(res)[:100])
             elif status == "timeout":
-                col.gap("path timeout")
+                col.count("slow_paths_not_analysed")
             elif status == "ok" and not cur.get("viol") and col.want_witness():
-                text = SymStr(items).concretize(ex.model())
-                col.add_witness(dict(prop=prop, name=prog.name, a=ref["text"], b=text), dict(same=True, key=res["key"]))
+                text = SymStr(cur["items"]).concretize(ex.model())
+                col.add_witness(dict(prop=prop, name=prog.name, a=ref[res["rk"]][1], b=text), dict(same=True, key=res["key"]))
     else:
         mode = chunk["mode"]
         base = strip_header(prog) if mode == "header" else prog
@@ -297,13 +406,13 @@ def run_chunk(chunk, ctx):
             if status == "gap":
                 col.gap(str(res)[:100])
             elif status == "timeout":
-                col.gap("path timeout")
+                col.count("slow_paths_not_analysed")
             elif status == "ok" and not cur.get("viol") and col.want_witness():
                 m = ex.model()
                 col.add_witness(dict(prop="C19", mode=mode, name=prog.name, a=SymStr(ia).concretize(m),
                                      b=SymStr(ib).concretize(m), at=at, by=by, nbase=nbase), dict(ok=True))
     left = max(1.0, min(ctx.get("chunk_time", 60), ctx["deadline"] - time.time()))
-    ex.explore(body, on_path=on_path, max_time=left, path_alarm=15.0)
+    ex.explore(body, on_path=on_path, max_time=left, path_alarm=60.0, max_paths=ctx.get("max_paths"))
     res = col.finish()
     res["stats"] = ex.stats()
     return res
